@@ -234,11 +234,33 @@ def classify(logs):
 _CTX = [None]
 
 
+_ANALYSES = [0]
+SECTION_HEAD = 'earlier_part = 1\nprint(earlier_part)\n\n'
+
+
 def tifa_issues(code):
     from pedal.core.commands import clear_report, contextualize_report
     from pedal.tifa import tifa_analysis
     clear_report()
-    contextualize_report(code)
+    _ANALYSES[0] += 1
+    shift = 0
+    if _ANALYSES[0] % 9 == 4 and '##### Part' not in code and '\r' not in code:
+        # the program is the part after the first marker of a sectioned file (here one the student did not call answer.py): the
+        # issues are reported on the lines of the whole file
+        from pedal.core.report import MAIN_REPORT
+        from pedal.source.sections import separate_into_sections, next_section
+        contextualize_report(SECTION_HEAD + '##### Part 1\n' + code, filename='student_work.py' if _ANALYSES[0] % 2 else 'answer.py')
+        separate_into_sections(independent=True)
+        next_section()
+        if MAIN_REPORT.submission.main_code == '\n' + code:
+            shift = SECTION_HEAD.count('\n') + 1
+            if _CTX[0] is not None:
+                _CTX[0].count('programs_analysed_as_a_later_section')
+        else:
+            clear_report()
+            contextualize_report(code)
+    else:
+        contextualize_report(code)
     # (the messages of the issues are rendered through the report's formatter while the analysis runs: web environments use HTML)
     from props.c18 import use_formatter
     use_formatter(_CTX[0], code) if _CTX[0] is not None else None
@@ -250,7 +272,8 @@ def tifa_issues(code):
                 name = fb.fields.get('name')
             except Exception:
                 name = None
-            out.setdefault(label, []).append((name, getattr(fb.location, 'line', None)))
+            line = getattr(fb.location, 'line', None)
+            out.setdefault(label, []).append((name, line - shift if isinstance(line, int) else line))
     return t, out
 
 
